@@ -106,9 +106,9 @@ theorem new_invalid (cap : Nat) (grow : Nat → Nat) (exGe : Nat → Bool) (m : 
 /-- in one statement over whole histories: any call of the C01 vocabulary that reports an error
 status returns the state it was given -/
 theorem error_is_inert (cfg : Spec.Seq.Cfg) (a : Arr) (op : Spec.Seq.Op) (m : Mem) (hinv : a.Inv)
-    (hlive : 0 < m.live) (hsort : ∀ xs, (cfg.sortFn xs).length = xs.length) (st : Stat)
+    (hsort : ∀ xs, (cfg.sortFn xs).length = xs.length) (st : Stat)
     (h1 : (a.step cfg op m).1.st = some st) (h2 : st ≠ .ok) : (a.step cfg op m).2.1 = a :=
-  (Arr.step_spec cfg a op m hinv hlive hsort).2.2.2.2.2.2 st h1 h2
+  (Arr.step_spec cfg a op m hinv hsort).2.2.2.2.2.2 st h1 h2
 
 /-- **`out_of_range_rejected`**, the range table in one statement: for every index in `Nat`,
 `add_at` accepts exactly `[0,size]` (unless blocked by the allocator or the capacity limit), and
@@ -131,10 +131,10 @@ theorem out_of_range_rejected (a : Arr) (x i j : Nat) (m : Mem) (hinv : a.Inv) :
 /-- **`error_is_inert`** for iterator calls: a status other than `CC_OK` leaves array and cursor unchanged
 (for `CC_ITER_END` and `CC_ERR_ALLOC` too) -/
 theorem iter_error_is_inert (a : Arr) (it : ArrIter) (c : Spec.Seq.Cursor) (op : Spec.Seq.IterOp) (m : Mem)
-    (hinv : a.Inv) (hlive : 0 < m.live) (hs : Arr.Sim a it c) (st : Stat)
+    (hinv : a.Inv) (hs : Arr.Sim a it c) (st : Stat)
     (h1 : (a.iterStep it op m).1.st = some st) (h2 : st ≠ .ok) :
     (a.iterStep it op m).2.1 = a ∧ (a.iterStep it op m).2.2.1 = it :=
-  (Arr.iterStep_sim a it c op m hinv hlive hs).2.2.2.2.2.2 st h1 h2
+  (Arr.iterStep_sim a it c op m hinv hs).2.2.2.2.2.2 st h1 h2
 
 /-- zip mutators before the first yield or after a removal: rejected, both arrays and the cursor unchanged -/
 theorem zip_error_is_inert (a1 a2 : Arr) (it : ArrIter) (z : Spec.Seq.ZipCursor) (x y : Nat) (m : Mem)
